@@ -76,6 +76,9 @@ pub struct World<K: SimKey> {
     pub cfg: Cfg,
     pub cas: Option<Cas<K>>,
     pub last_scan: Option<ScanView>,
+    /// the live OrphanStats of the last open (kept only when `keep_stats`)
+    pub stats: Option<OrphanStats<K>>,
+    pub keep_stats: bool,
     pub keys: Vec<K>,
     pub contents: Vec<Arc<Vec<u8>>>,
     pub hashes: Vec<[u8; 32]>,
@@ -176,6 +179,8 @@ impl<K: SimKey> World<K> {
             cfg: wl.cfg.clone(),
             cas: None,
             last_scan: None,
+            stats: None,
+            keep_stats: false,
             keys,
             contents,
             hashes,
@@ -225,7 +230,11 @@ impl<K: SimKey> World<K> {
         match r {
             Ok((cas, stats)) => {
                 self.last_scan = stats.as_ref().map(|s| scan_view(s, &base));
-                drop(stats);
+                if self.keep_stats {
+                    self.stats = stats;
+                } else {
+                    drop(stats);
+                }
                 self.cas = Some(cas);
                 self.writes_since_open = 0;
                 Ok(())
@@ -235,6 +244,9 @@ impl<K: SimKey> World<K> {
     }
 
     pub fn close(&mut self) {
+        if let Some(st) = self.stats.take() {
+            interpose::enter(|| drop(st));
+        }
         if let Some(c) = self.cas.take() {
             interpose::enter(|| drop(c));
         }
